@@ -376,6 +376,11 @@ func genPayload(r *rand.Rand, amount *big.Int, wellFormedBias bool) string {
 	if !wellFormedBias && r.Intn(12) == 0 {
 		return []string{"", "{", "null", "[]", `{"type":5}`}[r.Intn(5)]
 	}
+	if !wellFormedBias && r.Intn(5) == 0 {
+		// objects that leave fields out: whatever a decoder kept from an earlier payload must not fill them in
+		return []string{"{}", `{"fee":"0"}`, `{"fee":"10"}`, `{"type":"send_to_hub"}`, `{"type":"send_to_bsc","fee":"0"}`,
+			`{"recipient":"0x00000000000000000000000000000000000000Aa"}`, `{"recipient":"` + hubAcc + `","fee":"0"}`, `{"type":"send_to_ethereum","recipient":"0x00000000000000000000000000000000000000Aa"}`}[r.Intn(8)]
+	}
 	return string(b)
 }
 
